@@ -24,6 +24,7 @@ func init() {
 }
 
 func runC17(w *World, r *Report) {
+	hrRetryCounterStore(w, r, "R1")
 	la := NewLockAn(w)
 	ex := w.Fn(pkgRetry, "retryProcessor.Execute")
 	if ex == nil {
